@@ -95,6 +95,7 @@ type interpreter struct {
 	mapOrder           map[uintptr][]value    // insertion order of every interpreted map (deterministic iteration)
 	mapPerm            map[[2]uintptr]int     // chosen iteration permutation per (map, size)
 	symMaps            map[uintptr][]symEntry // entries whose key is a symbolic string
+	skipIntrinsic      bool                   // next call runs the real body even if an intrinsic exists
 }
 
 type deferred struct {
@@ -556,14 +557,18 @@ func callSSA(i *interpreter, caller *frame, callpos token.Pos, fn *ssa.Function,
 		if st, ok := i.stubs[name]; ok {
 			return call(i, caller, callpos, st, args)
 		}
-		if in := intrinsics[name]; in != nil {
+		if in := intrinsics[name]; in != nil && !i.skipIntrinsic {
 			return in(fr, args)
 		}
+		i.skipIntrinsic = false
 		if ext := externals[name]; ext != nil {
 			if i.mode&EnableTracing != 0 {
 				fmt.Fprintln(os.Stderr, "\t(external)")
 			}
 			return ext(fr, args)
+		}
+		if zeroResultFns[name] {
+			return zeroResults(fn)
 		}
 		if fn.Blocks == nil {
 			if nf := nativeFallback(name); nf != nil {
